@@ -36,6 +36,7 @@
 #include <thread>
 #include <chrono>
 #include <unistd.h>
+#include <csignal>
 
 using namespace cocls;
 using vh::test_exc;
@@ -680,9 +681,29 @@ struct case_runner {
     }
 };
 
-// An operation that does not return (and makes no progress) for 3 s is reported as `<op> hang`.  The stuck thread
-// cannot be recovered, so the rest of the input is skipped (only the `case <id>` headers are echoed, which the
-// framework sees as missing output) and the process exits at once; the oracle turns the `hang` line into a verdict.
+// An operation that does not return (and makes no progress) for 3 s is reported as `<op> hang`, a library assertion
+// (abort) inside an operation as `<op> abort`.  The thread cannot be recovered, so the rest of the input is skipped
+// (only the `case <id>` headers are echoed, which the framework sees as missing output) and the process exits at
+// once; the oracle turns the `hang` / `abort` line into a verdict.
+static void bail(const char *what) {
+    auto w = vh::split(g_where);
+    std::cout << (w.empty() ? std::string("?") : w[0]) << " " << what << "\n";
+    std::string line;
+    while (std::getline(std::cin, line)) {
+        auto w2 = vh::split(line);
+        if (w2.size() >= 2 && w2[0] == "case") std::cout << "case " << w2[1] << "\n";
+    }
+    std::cout.flush();
+    _exit(0);
+}
+
+static void on_abort(int) {
+    static std::atomic<bool> once{false};
+    if (once.exchange(true) || !g_busy.load()) _exit(134);
+    fprintf(stderr, "ABORT inside operation `%s`\n", g_where.c_str());
+    bail("abort");
+}
+
 static void watchdog() {
     long last = -1;
     int same = 0;
@@ -693,15 +714,7 @@ static void watchdog() {
             if (++same >= 30) {
                 fprintf(stderr, "HANG: operation `%s` did not return within 3 s\n", g_where.c_str());
                 fflush(stderr);
-                auto w = vh::split(g_where);
-                std::cout << (w.empty() ? std::string("?") : w[0]) << " hang\n";
-                std::string line;
-                while (std::getline(std::cin, line)) {
-                    auto w2 = vh::split(line);
-                    if (w2.size() >= 2 && w2[0] == "case") std::cout << "case " << w2[1] << "\n";
-                }
-                std::cout.flush();
-                _exit(0);
+                bail("hang");
             }
         } else {
             same = 0;
@@ -711,6 +724,7 @@ static void watchdog() {
 }
 
 int main() {
+    signal(SIGABRT, on_abort);
     std::thread(watchdog).detach();
     std::string line;
     while (std::getline(std::cin, line)) {
